@@ -1,3 +1,3 @@
 From Coq Require Import Extraction ExtrOcamlBasic NArith List.
-From C16 Require Import Model Render.
-Extraction "Model.ml" parse parse_old render_case.
+From C16 Require Import Model Render WriterModel.
+Extraction "Model.ml" parse parse_old render_case writer_output has_prop get_prop get_prop_or.
